@@ -23,29 +23,30 @@ import (
 // ---------------------------------------------------------------------------------------------
 
 type hdStats struct {
-	Histories    int            `json:"histories"`
-	Hands        int            `json:"hands"`
-	Settled      int            `json:"hands_settled"`
-	States       int            `json:"states_delivered"`
-	Actions      int            `json:"actions_submitted"`
-	Accepted     int            `json:"actions_accepted"`
-	Probes       int            `json:"illegal_probes"`
-	ProbeKinds   map[string]int `json:"probe_kinds"`
-	ActMix       map[string]int `json:"accepted_action_mix"`
-	Faults       int            `json:"faults_injected"`
-	Events       map[string]int `json:"events_seen"`
-	Players      map[string]int `json:"participants_per_hand"`
-	Structures   map[string]int `json:"blind_structures"`
-	Stuck        int            `json:"stuck_hands"`
-	Withheld     int            `json:"withheld_responses_waited_out"`
-	LateExtends  int            `json:"extensions_asked_after_the_deadline_passed"`
-	Crashed      int            `json:"crashed_histories"`
-	SlowListener int            `json:"histories_with_a_slow_action_listener"`
-	FailedStarts int            `json:"hands_the_backend_refused_to_create"`
-	ByLeaves     int            `json:"bystander_listed_first_left_mid_hand"`
-	MaxSteps     int            `json:"max_backend_calls_per_hand"`
-	Distinct     int            `json:"distinct_histories"`
-	Samples      []string       `json:"samples"`
+	Histories     int            `json:"histories"`
+	Hands         int            `json:"hands"`
+	Settled       int            `json:"hands_settled"`
+	States        int            `json:"states_delivered"`
+	Actions       int            `json:"actions_submitted"`
+	Accepted      int            `json:"actions_accepted"`
+	Probes        int            `json:"illegal_probes"`
+	ProbeKinds    map[string]int `json:"probe_kinds"`
+	ActMix        map[string]int `json:"accepted_action_mix"`
+	Faults        int            `json:"faults_injected"`
+	Events        map[string]int `json:"events_seen"`
+	Players       map[string]int `json:"participants_per_hand"`
+	Structures    map[string]int `json:"blind_structures"`
+	Stuck         int            `json:"stuck_hands"`
+	Withheld      int            `json:"withheld_responses_waited_out"`
+	LateExtends   int            `json:"extensions_asked_after_the_deadline_passed"`
+	Crashed       int            `json:"crashed_histories"`
+	SlowListener  int            `json:"histories_with_a_slow_action_listener"`
+	FailedStarts  int            `json:"hands_the_backend_refused_to_create"`
+	ByLeaves      int            `json:"bystander_listed_first_left_mid_hand"`
+	ClosedExtends int            `json:"extensions_asked_right_after_a_round_closed"`
+	MaxSteps      int            `json:"max_backend_calls_per_hand"`
+	Distinct      int            `json:"distinct_histories"`
+	Samples       []string       `json:"samples"`
 }
 
 func newHDStats() *hdStats {
@@ -65,6 +66,7 @@ func mergeHD(d, s *hdStats) {
 	d.SlowListener += s.SlowListener
 	d.FailedStarts += s.FailedStarts
 	d.ByLeaves += s.ByLeaves
+	d.ClosedExtends += s.ClosedExtends
 	d.Withheld += s.Withheld
 	d.LateExtends += s.LateExtends
 	if s.MaxSteps > d.MaxSteps {
@@ -176,8 +178,14 @@ func (h *hdHist) flush() *pokertable.Table {
 	t1 := time.Now().Unix()
 	var last *pokertable.Table
 	snaps := h.rig.snapsFrom(h.snapPos)
+	base := h.snapPos
 	h.snapPos += len(snaps)
-	for _, s := range snaps {
+	for k, s := range snaps {
+		if base+k > 0 {
+			if m := h.rig.markAt(base + k - 1); m != "" {
+				h.line("%s", m) // what the listener did when it saw the previous snapshot
+			}
+		}
 		if s.State.GameState == nil {
 			continue
 		}
@@ -738,6 +746,24 @@ func genHDHistory(r *rand.Rand, st *hdStats, hid int, hands int, faultPct, probe
 	if r.Intn(3) == 0 {
 		rig.listenerDwell = 2 * time.Millisecond
 		st.SlowListener++
+	}
+	if withholdAt == "" && r.Intn(3) == 0 {
+		// somebody asks for more time the moment a betting round has closed — nobody is asked to act then; if it was the
+		// hand's last round, the settlement and the continue step follow at once
+		rig.snapHook = func(t *pokertable.Table) string {
+			g := t.State.GameState
+			if g == nil || g.Status.CurrentEvent != "RoundClosed" || t.State.Status != pokertable.TableStateStatus_TableGamePlaying || r.Intn(2) != 0 {
+				return ""
+			}
+			if len(t.State.GamePlayerIndexes) == 0 {
+				return ""
+			}
+			who := t.State.PlayerStates[t.State.GamePlayerIndexes[0]].PlayerID
+			d := 1 + r.Intn(20)
+			ret, _ := rig.te.PlayerExtendActionDeadline(who, d)
+			st.ClosedExtends++
+			return fmt.Sprintf("hd extend d=%d closed=1 | ret=%d", d, ret)
+		}
 	}
 	st.Histories++
 	seats := r.Perm(maxSeat)
